@@ -113,5 +113,18 @@ def extra_checks(ctx, cases_, impl_lines, model_lines_):
         return res
     # "the pre-existing content becomes the newest archive" - at the place the pattern names at the time of the roll
     # (the first record), also when the process has changed its working directory since the roller was built
-    return xcheck.borrow(ctx, "C07", "the start-up roll puts the archive where the pattern says at that moment",
-                         lambda c: any(isinstance(o, list) and o and o[0] == 4 for o in c[8]), n=120, seed_salt=47)
+    res = xcheck.borrow(ctx, "C07", "the start-up roll puts the archive where the pattern says at that moment",
+                        lambda c: any(isinstance(o, list) and o and o[0] == 4 for o in c[8]), n=120, seed_salt=47)
+    if res:
+        return res
+    # ... where the pattern / the appender's path names that place through $ENV{..} references (names and values with
+    # non-ASCII characters included): C19's rolling-appender and roller call sites
+    res = xcheck.borrow(ctx, "C19", "the archive / log location named through $ENV{..} references",
+                        lambda c: c[0] % 10 in (1, 2) and c[2] and any(any(x > 127 for x in kv[0]) for kv in c[2]), n=150, seed_salt=73)
+    if res:
+        return res
+    # ... and a pattern whose file name is only an extension-like word (`arch/{}/.gz`: no extension, so no
+    # compression) or carries the index in a directory: C07's pattern shapes
+    return xcheck.borrow(ctx, "C07", "the archive holds the old content as the pattern's real extension says",
+                         lambda c: isinstance(c[4], (str, bytes)) and (b"/.gz" in (c[4] if isinstance(c[4], bytes) else c[4].encode()) or b"/.zst" in (c[4] if isinstance(c[4], bytes) else c[4].encode())),
+                         n=150, seed_salt=79)
